@@ -81,6 +81,10 @@ void ILLsymboltab_init (
 	h->hashspace = 0;
 	h->name_space = 0;
 	h->strspace = 0;
+	h->index_ok = 0;
+	h->the_hash = 0;
+	h->the_index = ILL_SYM_NOINDEX;
+	h->the_prev_index = ILL_SYM_NOINDEX;
 	h->hashtable = (int *) NULL;
 	h->nametable = (ILLsymbolent *) NULL;
 	h->namelist = (char *) NULL;
